@@ -54,13 +54,14 @@ fn quiet<T>(f: impl FnOnce() -> T) -> Result<T, String> {
     let r = catch_unwind(AssertUnwindSafe(f));
     std::panic::set_hook(prev);
     r.map_err(|e| {
-        if let Some(s) = e.downcast_ref::<&str>() {
+        let msg = if let Some(s) = e.downcast_ref::<&str>() {
             s.to_string()
         } else if let Some(s) = e.downcast_ref::<String>() {
             s.clone()
         } else {
             "panic".to_string()
-        }
+        };
+        msg.lines().next().unwrap_or("").chars().take(300).collect()
     })
 }
 
@@ -194,7 +195,7 @@ where
         match sampler.wait_timeout(std::time::Duration::from_millis(50)) {
             SamplerWaitResult::Trace(t) => return Ok(t),
             SamplerWaitResult::Timeout(s) => sampler = s,
-            SamplerWaitResult::Err(e, _) => return Err(format!("{e:?}")),
+            SamplerWaitResult::Err(e, _) => return Err(format!("{e}")),
         }
     }
 }
@@ -241,6 +242,92 @@ fn hashmap_finalize(p: &Value) -> Value {
     }
 }
 
+#[derive(Debug, Clone)]
+struct Failing {
+    dim: usize,
+    calls: std::sync::Arc<std::sync::atomic::AtomicUsize>,
+    fail_at: usize,
+}
+#[derive(Debug, Error)]
+enum FailError {
+    #[error("unrecoverable density failure")]
+    Fatal,
+}
+impl LogpError for FailError {
+    fn is_recoverable(&self) -> bool {
+        false
+    }
+}
+impl HasDims for Failing {
+    fn dim_sizes(&self) -> HashMap<String, u64> {
+        HashMap::from([("unconstrained_parameter".to_string(), self.dim as u64)])
+    }
+}
+impl CpuLogpFunc for Failing {
+    type LogpError = FailError;
+    type FlowParameters = ();
+    type ExpandedVector = Vec<f64>;
+    fn dim(&self) -> usize {
+        self.dim
+    }
+    fn logp(&mut self, position: &[f64], grad: &mut [f64]) -> Result<f64, Self::LogpError> {
+        let n = self.calls.fetch_add(1, std::sync::atomic::Ordering::SeqCst);
+        if n >= self.fail_at {
+            return Err(FailError::Fatal);
+        }
+        let mut logp = 0f64;
+        for (x, g) in position.iter().zip(grad.iter_mut()) {
+            *g = -x;
+            logp -= 0.5 * x * x;
+        }
+        Ok(logp)
+    }
+    fn expand_vector<R: rand::Rng + ?Sized>(&mut self, _rng: &mut R, position: &[f64]) -> Result<Vec<f64>, nuts_rs::CpuMathError> {
+        Ok(position.to_vec())
+    }
+}
+struct FailingModel {
+    math: CpuMath<Failing>,
+}
+impl Model for FailingModel {
+    type Math<'model>
+        = CpuMath<Failing>
+    where
+        Self: 'model;
+    fn math<R: rand::Rng + ?Sized>(&self, _rng: &mut R) -> anyhow::Result<Self::Math<'_>> {
+        Ok(self.math.clone())
+    }
+    fn init_position<R: rand::Rng + ?Sized>(&self, _rng: &mut R, position: &mut [f64]) -> anyhow::Result<()> {
+        for p in position.iter_mut() {
+            *p = 0.3;
+        }
+        Ok(())
+    }
+}
+
+/// C13: an unrecoverable density error during a draw must come back as SamplerWaitResult::Err, not as a panic
+fn chain_failure(p: &Value) -> Value {
+    let fail_at = p["fail_at"].as_u64().unwrap_or(200) as usize;
+    let r = quiet(|| {
+        let model = FailingModel { math: CpuMath::new(Failing { dim: 2, calls: Default::default(), fail_at }) };
+        let mut settings = DiagNutsSettings::default();
+        settings.num_chains = 1;
+        settings.num_tune = 50;
+        settings.num_draws = 50;
+        settings.seed = 5;
+        let sampler = Sampler::new(model, settings, nuts_rs::CsvConfig::new(std::env::temp_dir().join(format!("verif-replay-{}", std::process::id()))), 1, None).map_err(|e| format!("{e:?}")).unwrap();
+        match wait(sampler) {
+            Ok(_) => "trace".to_string(),
+            Err(e) => format!("err: {}", e.lines().next().unwrap_or("").chars().take(200).collect::<String>()),
+        }
+    });
+    let _ = std::fs::remove_dir_all(std::env::temp_dir().join(format!("verif-replay-{}", std::process::id())));
+    match r {
+        Ok(s) => json!({"confirmed": !s.starts_with("err"), "panicked": false, "outcome": s}),
+        Err(msg) => json!({"confirmed": true, "panicked": true, "message": msg}),
+    }
+}
+
 fn main() {
     let args: Vec<String> = std::env::args().collect();
     let fam = args.get(1).map(|s| s.as_str()).unwrap_or("");
@@ -250,6 +337,7 @@ fn main() {
         "mclmc_tuning" => mclmc_tuning(&p),
         "last_step" => last_step(&p),
         "hashmap_finalize" => hashmap_finalize(&p),
+        "chain_failure" => chain_failure(&p),
         _ => json!({"error": "unknown family"}),
     };
     println!("{}", out);
